@@ -6,6 +6,7 @@ import shutil
 import subprocess
 import sys
 import tempfile
+import time
 import threading
 
 from mc import explore, family, wb as W
@@ -32,6 +33,9 @@ VERIF_DIR = os.path.dirname(os.path.dirname(os.path.dirname(os.path.abspath(__fi
 
 CONTENT = [
     1e-7, 1e22, -0.0, 1 / 3, 0, 1, -1.5, 123456789012, True, False,
+    # floats that need 16-17 significant digits, in exponent and in plain notation, and the ends of the float range
+    1.234567890123457e-05, 1.234567890123457e+19, 5e-324, 123456789.12345678, 0.1 + 0.2, 1.7976931348623157e308, 2.5e-308,
+    9007199254740993, 10 ** 20, -1e-300,
     '- a', 'k: v', '{a: 1}', '[1, 2]', '# c', 'null', '~', 'true', 'yes', 'no', 'on', '1', '1.0', '1e3', '0x10', '.5',
     "'q'", '"q"', ' lead', 'trail ', '', 'é', '日本', 'a\nb', 'a\tb', 'x' * 300, 'a: b: c', '%TAG', '@at', '`bt`',
     '!bang', '&anchor', '*alias', '|', '>', '2001-01-01', '12:30:00', 'a #b', '\\n', 'a\\b', 'NaN', '.inf', '#N/A', '#DIV/0!',
@@ -165,6 +169,37 @@ def work_content(job):
                     break
             if bad:
                 continue
+            # saving the loaded model reproduces the same content: constants and code, and the values once more
+            if not (isinstance(item, str) and item.startswith('=')):
+                try:
+                    path2 = save(ld, os.path.join(tmp, f'r{idx}'), fmt)
+                    ld2 = ExcelCompiler.from_file(path2)
+                except Exception as exc:
+                    acc.violation(dict(base, verdict='resave-raised', exc=type(exc).__name__),
+                                  f'content {item!r} {fmt} cycles={cycles}: saving / re-loading the loaded model raised '
+                                  f'{type(exc).__name__}: {str(exc)[:160]}')
+                    continue
+                if fmt in ('yml', 'json'):
+                    a_, b_ = parsed(path).get('cell_map'), parsed(path2).get('cell_map')
+                    if a_ != b_:
+                        diff = sorted(k for k in set(a_) | set(b_) if a_.get(k) != b_.get(k))
+                        acc.violation(dict(base, verdict='resave-differs', cells=diff, observed=jsonable([b_.get(k) for k in diff]),
+                                           expected=jsonable([a_.get(k) for k in diff])),
+                                      f'content {item!r} {fmt} cycles={cycles}: saving the loaded model wrote {diff} as '
+                                      f'{[b_.get(k) for k in diff]!r}, the first save wrote {[a_.get(k) for k in diff]!r}')
+                        continue
+                for a in cells:
+                    lv2 = ev(ld2, a)
+                    acc.add('transitions')
+                    if not same(orig[a], lv2):
+                        acc.violation(dict(base, verdict='second-generation-differs', cell=a, observed=jsonable(lv2), expected=jsonable(orig[a]),
+                                           defect=defect_model(item, fmt, a, lv2)),
+                                      f'content {item!r} saved as {fmt}, loaded, saved and loaded again (cycles={cycles}): {a} = {lv2!r} '
+                                      f'but the original has {orig[a]!r}')
+                        bad = True
+                        break
+                if bad:
+                    continue
             # follow-up history in lock-step
             for w in (7, 'zz', item):
                 for mm in (m, ld):
@@ -342,6 +377,17 @@ def work_rules(job):
                 got = (ld.extra_data or {}).get(k)
                 if json.loads(json.dumps(got, default=str)) != v:
                     bad('extra-data-lost', f'{fmt}: extra_data[{k!r}] = {got!r} after the trip', fmt=fmt)
+            # an address without a sheet means the active sheet, on the loaded model as on the original
+            act = spec.get('active') or list(spec['sheets'])[0]
+            for a in [c for c in fam['cells'] if c.startswith(act + '!')][:2]:
+                bare = a.split('!', 1)[1]
+                ov, lv = ev(m, bare), ev(ld, bare)
+                acc.add('transitions')
+                if ov[0] == 'ok' and not same(ov, lv):
+                    bad('sheetless-differs', f'{fmt}: evaluate({bare!r}) (no sheet) on the loaded model gives {lv!r}, the original {ov!r}',
+                        fmt=fmt, cell=bare, observed=jsonable(lv), expected=jsonable(ov),
+                        no_active_sheet_after_load=(lv[0] == 'exc' and lv[1] == 'AttributeError' and 'get_active_sheet_name' in lv[2]))
+                    break
             # saving the loaded model reproduces the same content
             p2 = os.path.join(tmp, 'again.' + fmt)
             ld.to_file(p2)
@@ -354,21 +400,30 @@ def work_rules(job):
         acc.add('evaluations')
         pb = os.path.join(tmp, 'pk')
         m.to_file(pb, file_types=('pkl', 'yml'))
-        t1 = os.stat(pb + '.pkl').st_mtime_ns
-        h1 = file_md5(pb + '.pkl')
-        os.utime(pb + '.pkl', ns=(1, 1))
+        t1 = os.stat(pb + '.pkl').st_mtime_ns        # (the time stamp itself is left alone: the library may compare it)
+        time.sleep(0.002)
         m.to_file(pb, file_types=('pkl', 'yml'))
-        if os.stat(pb + '.pkl').st_mtime_ns != 1:
+        if os.stat(pb + '.pkl').st_mtime_ns != t1:
             bad('pickle-rewritten', 'pickle next to an unchanged text file was rewritten', fmt='yml+pkl')
         if fam['inputs'] and fam['inputs'][0] in m.cell_map:
             m.set_value(fam['inputs'][0], 987)
+            time.sleep(0.002)
             m.to_file(pb, file_types=('pkl', 'yml'))
-            if os.stat(pb + '.pkl').st_mtime_ns == 1:
+            if os.stat(pb + '.pkl').st_mtime_ns == t1:
                 bad('pickle-stale', 'pickle next to a changed text file was not rewritten', fmt='yml+pkl')
             ld = ExcelCompiler.from_file(pb + '.pkl')
             got = ev(ld, fam['inputs'][0])
             if not same(('ok', 987), got):
                 bad('pickle-stale', f'pickle reloaded after a change gives {got!r} for the changed input', fmt='yml+pkl')
+            # a text-only save in between refreshes the text file: the next pkl+yml save must refresh the pickle too
+            m.set_value(fam['inputs'][0], 654)
+            m.to_file(pb, file_types=('yml',))
+            m.to_file(pb, file_types=('pkl', 'yml'))
+            for how, target in (('name without extension', pb), ('pickle', pb + '.pkl'), ('text', pb + '.yml')):
+                got = ev(ExcelCompiler.from_file(target), fam['inputs'][0])
+                if not same(('ok', 654), got):
+                    bad('pickle-stale', f'after save(pkl+yml), write, save(yml), save(pkl+yml): from_file by {how} gives {got!r} '
+                        f'for the changed input, the saved model has 654', fmt='yml+pkl', how=how)
         # workbook edited between compile and save
         acc.add('evaluations')
         m2 = ExcelCompiler(filename=xlsx)
